@@ -71,6 +71,7 @@ class Runner(object):
         db, problems = c15_lib.load(self.cm, fmt, data, opts)
         self.loads += 1
         out = {}
+        self.all_diffs = {}       # every differing leaf of the last rendering, per class
         for p in problems:
             cls = "noise-" + p.split(":")[0].split(" ")[0]
             if p.startswith("exception"):
@@ -80,7 +81,9 @@ class Runner(object):
             exp = c15_lib.expected(desc, fmt)
             obs = c15_lib.observed(db, desc, fmt)
             for path, a, b in c15_lib.diff(exp, obs):
-                out.setdefault(c15_lib.classify(path), (path, a, b))
+                cls = c15_lib.classify(path)
+                out.setdefault(cls, (path, a, b))
+                self.all_diffs.setdefault(cls, []).append((path, a, b))
         if want_db:
             return out, db, data
         return out
@@ -101,7 +104,7 @@ class Runner(object):
                     sub["order_seed"] = cur["order_seed"]
                 if cls in self.classes(fmt, desc, sub, enc0):
                     for f, k, v, key in ROOT_LEX:
-                        if f == fmt and ks.get(k) == v:
+                        if f == fmt and ks.get(k) == v and self.float_explained(fmt, desc, sub, enc0, cls):
                             return key, sub, enc0
                     return "%s-%s" % (fmt, lex_part(ks)), sub, enc0
         cur_enc = enc
@@ -119,12 +122,50 @@ class Runner(object):
         if ks and ks not in self.known_keysets[fmt]:
             self.known_keysets[fmt].append(ks)
         for f, k, v, key in ROOT_LEX:
-            if f == fmt and ks.get(k) == v:
+            if f == fmt and ks.get(k) == v and self.float_explained(fmt, desc, cur, cur_enc, cls):
                 return key, cur, cur_enc
         part = lex_part(ks)
         if cur_enc != enc0:
             part = (part + "+" if part else "") + "encoding=" + cur_enc
         return "%s-%s" % (fmt, part or cls), cur, cur_enc
+
+    def float_explained(self, fmt, desc, lex, enc, cls):
+        """The known finding json-native-number-through-float covers exactly this: the loaded number is the binary double nearest to
+        the written decimal.  Every differing leaf of the class must be explained that way; 0, 0.0, small integers and other values a
+        double holds exactly are NOT covered and have to come back as written."""
+        import decimal
+        self.classes(fmt, desc, lex, enc)
+        diffs = self.all_diffs.get(cls, [])
+        exp_all = c15_lib.expected(desc, fmt)
+        if not diffs:
+            return False
+        for path, a, b in diffs:
+            try:
+                da, dbb = decimal.Decimal(str(a)), decimal.Decimal(str(b))
+            except (decimal.InvalidOperation, ValueError, TypeError):
+                return False
+            if da == dbb:
+                return False
+            if decimal.Decimal(float(da)).normalize() == dbb.normalize() and decimal.Decimal(float(da)) != da:
+                continue            # the written decimal itself is not a double (both sides at the context's 28 digits)
+            # a limit the reader derives (offset + raw*factor) from an inexactly loaded factor/offset: double-precision noise
+            # relative to the signal's own magnitudes - a dropped or replaced value is off by orders of magnitude more
+            parts = [x for x in path.split("/") if x]
+            scale = abs(da)
+            if len(parts) == 5 and parts[0] == "frames" and parts[2] == "signals" and parts[4] in ("min", "max", "start_value"):
+                sig = exp_all.get("frames", {}).get(parts[1], {}).get("signals", {}).get(parts[3], {})
+                inexact = False
+                for k in ("factor", "offset"):
+                    try:
+                        x = decimal.Decimal(str(sig.get(k)))
+                        scale = max(scale, abs(x) * ((1 << len(sig.get("bits", []))) if k == "factor" else 1))
+                        inexact = inexact or decimal.Decimal(float(x)) != x
+                    except (decimal.InvalidOperation, ValueError, TypeError):
+                        pass
+                if inexact and abs(da - dbb) <= scale * decimal.Decimal("1e-15"):
+                    continue
+            return False
+        return True
 
     def shrink(self, fmt, desc, lex, enc, cls, budget=40):
         """drop frames / signals / decorations while the class still fails"""
@@ -228,6 +269,13 @@ def run(chk):
                     feats.add("extended-id")
             if desc["attr_defs"]:
                 feats.add("attributes")
+            if any(len(n) > 32 for n in [e["name"] for e in desc["ecus"]] + [f["name"] for f in desc["frames"]]
+                   + [s["name"] or "" for f in desc["frames"] for s in f["signals"]]):
+                feats.add("long-names")
+            if any(c15_lib.decode_probes(f) for f in desc["frames"]):
+                feats.add("decode-probed")
+            if any(s["min"] == 0 or s["max"] == 0 for f in desc["frames"] for s in f["signals"]):
+                feats.add("zero-limit")
             for ft in feats:
                 chk.count("%s:%s" % (fmt, ft))
             forms = []
